@@ -174,8 +174,8 @@ Print Assumptions c07_pipeline.
     UTF-8 content is decoded by the next attempt;  GET /strict?self=1 -> 404;  and a pipeline made
     of real parser runs: a good header, Accept-Encoding: gzip;q=x in the gzip hook -> 400. *)
 Example c07_example_text :
-  dh_declared (DHAtoms [(true, 2, OExn ELookup)])
-  /\ process_header cfg_fixed false [61;63;110;111;112;101;63;113;63;120;63;61] (DHAtoms [(true, 2, OExn ELookup)]) OOk = Reject 400.
+  dh_declared (DHAtoms [(true, 2, OExn ELookup)] OOk)
+  /\ process_header cfg_fixed false [61;63;110;111;112;101;63;113;63;120;63;61] (DHAtoms [(true, 2, OExn ELookup)] OOk) OOk = Reject 400.
 Proof. split; [repeat constructor|vm_compute; reflexivity]. Qed.
 
 Example c07_example_multipart :
@@ -191,7 +191,7 @@ Example c07_example_callable :
 Proof. split; vm_compute; reflexivity. Qed.
 
 Example c07_example_pipeline :
-  let stages := [(false, process_header cfg_fixed false [97] (DHAtoms []) OOk);
+  let stages := [(false, process_header cfg_fixed false [97] (DHAtoms [] OOk) OOk);
                  (false, query cfg_fixed [97;61;49]);
                  (true, accept_q cfg_fixed 1 [false])] in
   Forall (fun s => stage_total s = true) stages /\ pipeline stages 200 = 400.
